@@ -732,35 +732,48 @@ func freezeObject(o Object, memo map[Object]Object) Object {
 		return frozen
 
 	case *ImmutableArray:
-		// Re-freeze elements in case they contain mutable values.
-		newElems := make([]Object, len(v.Value))
+		if cached, ok := memo[o]; ok {
+			return cached
+		}
+		// Re-freeze elements in case they contain mutable values. The result
+		// is registered before descending, so that an immutable array that
+		// (indirectly) contains itself is not traversed forever and shared
+		// elements are frozen once.
+		frozen := &ImmutableArray{Value: make([]Object, len(v.Value))}
+		memo[o] = frozen
 		changed := false
 		for i, elem := range v.Value {
 			f := freezeObject(elem, memo)
-			newElems[i] = f
+			frozen.Value[i] = f
 			if f != elem {
 				changed = true
 			}
 		}
 		if !changed {
+			memo[o] = o
 			return o
 		}
-		return &ImmutableArray{Value: newElems}
+		return frozen
 
 	case *ImmutableMap:
-		newMap := make(map[string]Object, len(v.Value))
+		if cached, ok := memo[o]; ok {
+			return cached
+		}
+		frozen := &ImmutableMap{Value: make(map[string]Object, len(v.Value))}
+		memo[o] = frozen
 		changed := false
 		for k, val := range v.Value {
 			f := freezeObject(val, memo)
-			newMap[k] = f
+			frozen.Value[k] = f
 			if f != val {
 				changed = true
 			}
 		}
 		if !changed {
+			memo[o] = o
 			return o
 		}
-		return &ImmutableMap{Value: newMap}
+		return frozen
 
 	default:
 		// Primitives, strings, bytes, time, functions, errors — return as-is.
